@@ -546,7 +546,7 @@ INFO_BITS = ["alphabetic", "numeric", "whitespace", "control", "lower", "upper"]
 # characters whose case mappings have been stable for a long time (Python's tables are older than Rust's)
 STABLE_CASE = ([chr(c) for c in range(0xa1, 0x180)] + [chr(c) for c in range(0x391, 0x3ca) if c != 0x3a2] +
                [chr(c) for c in range(0x410, 0x450)] + list("ßŉǰİıſﬁﬀΐᾳǅǄǆΣςσµÿŸ"))
-OTHER_NONASCII = ['€', '😀', '\u0301', '\x80', '\x85', '\xa0', '\u07ff', '\u0800', '\u2028', '\u3000', '\uffff', '\U00010000', '\U0010ffff',
+OTHER_NONASCII = ['\xff', '\u0100', '€', '😀', '\u0301', '\x80', '\x85', '\xa0', '\u07ff', '\u0800', '\u2028', '\u3000', '\uffff', '\U00010000', '\U0010ffff',
                   '\u0660', '\u00b2', '\u2160', '\u216f', '\u2170', '\u4e00', '\u00aa', '\u02b0', '\u1d2c', '\ufeff', '\u200b', '\ue000',
                   '\u0345', '\u1e9e', '\ua7cb', '\u0264']
 
@@ -833,7 +833,7 @@ def build_cases(rng, tier):
     for ch in STABLE_CASE + OTHER_NONASCII if not quick else rng.sample(STABLE_CASE, 40) + OTHER_NONASCII:
         add("char_type", [A(ch), V('T')], extra={"info": "from-impl", "char": ch})
     # enumeration of the characters of a class: complete for the classes that do not need Unicode tables
-    full = INFO_FREE if not quick else rng.sample(INFO_FREE, 3)
+    full = INFO_FREE if not quick else ["octet"] + rng.sample([t for t in INFO_FREE if t != "octet"], 2)
     for t in full:
         add("char_type", [V('C'), A(t)], extra={"limit": 0x110000})
     for t in CTYPES:
